@@ -55,6 +55,8 @@ def fresh(tname):
         return collections.deque([2, 0, 1])
     if tname == "deque-bounded":
         return collections.deque([2, 0, 1], maxlen=4)
+    if tname == "dict-str":
+        return {"k": 1, "a": [5], "flag": False}
     if tname == "list-mixed":
         return [1, [7, 8], "s", None, 2.5, {"k": [3]}]
     raise AssertionError(tname)
@@ -62,7 +64,7 @@ def fresh(tname):
 
 def pytype(tname):
     return {"list": list, "dict": dict, "set": set, "deque": collections.deque, "deque-bounded": collections.deque,
-            "list-mixed": list}[tname]
+            "list-mixed": list, "dict-str": dict}[tname]
 
 
 #: reference table (python library reference, "Mutable Sequence Types", "Mapping Types", "Set Types", collections.deque)
@@ -379,6 +381,141 @@ def filter_shard(arg):
     return p
 
 
+# ------------------------------------------------------------------ part C: namespace() and attribute assignment
+#
+# The only statements that store into an object are `{% set ns.attr = v %}` / `{% set ns.attr %}..{% endset %}`; they
+# are meant for Namespace objects only.  Routes: a namespace built FROM a context container, and attribute
+# assignment aimed at the container itself (single, repeated, after a branch that is not taken, after rebinding
+# a namespace name to the container, through loop variables, macro parameters and aliases).
+
+C_TYPES = ["dict", "dict-str", "list", "set", "deque", "list-mixed"]
+ASSIGNS = [
+    ("set", "{% set @T.a = 99 %}"),
+    ("set-existing-key", "{% set @T.k = 99 %}"),
+    ("set-block", "{% set @T.a %}x{% endset %}"),
+    ("set-block-filter", "{% set @T.a | upper %}x{% endset %}"),
+    ("set-tuple", "{% set @T.a, @T.b = 1, 2 %}"),
+    ("set-twice", "{% set @T.a = 1 %}{% set @T.b = 2 %}"),
+    ("set-from-self", "{% set @T.a = @T.k %}"),
+]
+NS_BUILD = [
+    ("namespace(c)", "{% set ns = namespace(c) %}"),
+    ("namespace(c, k=1)", "{% set ns = namespace(c, z=1) %}"),
+    ("namespace(**c)", "{% set ns = namespace(**c) %}"),
+    ("namespace(c)-with", "{% with ns = namespace(c) %}@BODY{% endwith %}"),
+    ("namespace(h.x)", "{% set ns = namespace(h.x) %}"),
+    ("namespace(w[0])", "{% set ns = namespace(w[0]) %}"),
+    ("namespace(c|items)", "{% set ns = namespace(c|items) %}"),
+    ("namespace(namespace(c))", "{% set ns = namespace(c) %}{% set ns = namespace(ns) %}"),
+    ("namespace(c)-in-macro", "{% macro m(ns) %}@BODY{% endmacro %}{{ m(namespace(c)) }}"),
+    ("namespace(c)-in-loop", "{% for ns in [namespace(c)] %}@BODY{% endfor %}"),
+]
+#: attribute assignment aimed at a context container; @A = an assignment from ASSIGNS with target name substituted
+DIRECT = [
+    ("direct", "@A[c]"),
+    ("after-untaken-if", "{% if false %}@A[c]{% endif %}@A[c]"),
+    ("after-untaken-if-flag", "{% if flag %}{% set c.a = 1 %}{% endif %}@A[c]"),
+    ("after-untaken-elif", "{% if true %}{% elif true %}@A[c]{% endif %}@A[c]"),
+    ("after-untaken-else", "{% if true %}{% else %}@A[c]{% endif %}@A[c]"),
+    ("after-empty-for", "{% for i in [] %}@A[c]{% endfor %}@A[c]"),
+    ("after-for-else", "{% for i in [1] %}{% else %}@A[c]{% endfor %}@A[c]"),
+    ("in-taken-if", "{% if true %}@A[c]{% endif %}"),
+    ("in-for", "{% for i in [1, 2] %}@A[c]{% endfor %}"),
+    ("rebound-namespace", "{% set ns = namespace() %}@A[ns]{% set ns = c %}@A[ns]"),
+    ("rebound-namespace-with", "{% set ns = namespace() %}@A[ns]{% with ns = c %}@A[ns]{% endwith %}"),
+    ("rebound-in-loop", "{% for ns in [namespace(), c] %}@A[ns]{% endfor %}"),
+    ("alias", "{% set g = c %}@A[g]"),
+    ("holder-alias", "{% set g = h.x %}@A[g]"),
+    ("loop-var", "{% for y in w %}@A[y]{% endfor %}"),
+    ("macro-param", "{% macro m(x) %}@A[x]{% endmacro %}{{ m(namespace()) }}{{ m(c) }}"),
+    ("macro-param-untaken", "{% macro m(x, go) %}{% if go %}@A[x]{% endif %}@A[x]{% endmacro %}{{ m(namespace(), true) }}{{ m(c, false) }}"),
+    ("call-block-param", "{% macro m() %}{{ caller(c) }}{% endmacro %}{% call(x) m() %}@A[x]{% endcall %}"),
+    ("mixed-tuple", "{% set ns = namespace() %}{% set ns.a, c.b = 1, 2 %}"),
+    ("mixed-tuple-rev", "{% set ns = namespace() %}{% set c.b, ns.a = 1, 2 %}"),
+    ("in-block", "{% block b %}@A[c]{% endblock %}"),
+    ("in-filter-block", "{% filter upper %}@A[c]{% endfilter %}"),
+    ("second-statement-other-frame", "{% for i in [1] %}{% if false %}@A[c]{% endif %}{% endfor %}{% for i in [1] %}@A[c]{% endfor %}"),
+]
+
+
+def _assign(pat, target):
+    return pat.replace("@T", target)
+
+
+def partc_programs():
+    out = []
+    for aid, apat in ASSIGNS:
+        for nid, npat in NS_BUILD:
+            body = _assign(apat, "ns") + "{{ ns.a }}"
+            src = npat.replace("@BODY", body) if "@BODY" in npat else npat + body
+            out.append((f"namespace/{nid}/{aid}", src))
+        for did, dpat in DIRECT:
+            src = dpat
+            for t in ("c", "ns", "g", "y", "x"):
+                src = src.replace(f"@A[{t}]", _assign(apat, t))
+            if "@A" in dpat or aid == "set":
+                out.append((f"assign/{did}/{aid}", src))
+    return out
+
+
+def partc_case(asy, esc, tname, src, compiled=None):
+    x = fresh(tname)
+    data = {"c": x, "h": Holder(x), "w": [x], "flag": False}
+    before = copy.deepcopy(data)
+    env = make_env(asy, esc)
+    if compiled is None:
+        compiled = sbx.compile_src(env, src)
+    res = sbx.render_code(env, compiled, data)
+    changed = [k for k in data if not same(data[k], before[k])]
+    return res, changed, before, data, compiled
+
+
+def partc_shard(arg):
+    asy, esc, lo, hi = arg
+    core.import_all_jinja()
+    p = core.Part()
+    for pid, src in partc_programs()[lo:hi]:
+        comp = sbx.compile_src(make_env(asy, esc), src)
+        if comp[0] == "code":
+            viol, st = sbx.structural(comp[2])
+            p.count("struct_programs")
+            p.count("struct_namespace_stores", st["namespace_store"])
+            for kind, code in viol:
+                if kind == "subscript":
+                    p.violation(f"C19/struct/unguarded-item-store/{pid.split('/')[1]}", {
+                        "msg": f"generated code stores an item into a template value without the Namespace guard: {code!r} "
+                               f"in program {src!r}",
+                        "script": "from checks import c19\n"
+                                  f"print(c19.make_env({asy!r}, {esc!r}).compile({src!r}, raw=True))\n",
+                    })
+        for tname in C_TYPES:
+            p.evals += 1
+            res, changed, before, after, _ = partc_case(asy, esc, tname, src, comp)
+            oc = "ok" if res[0] == "ok" else res[1]
+            p.sig((pid.rsplit("/", 1)[0], pytype(tname).__name__, oc))
+            if changed:
+                p.violation(f"C19/assign-mutated/{pid.rsplit('/', 1)[0]}/{pytype(tname).__name__}", {
+                    "msg": f"[async={asy} autoescape={esc}] {src!r} with c={describe(before['c'])} changed "
+                           f"{', '.join(f'{k}: {describe(before[k])} -> {describe(after[k])}' for k in changed)} "
+                           f"(outcome {res!r})",
+                    "async": asy, "autoescape": esc, "program": pid, "type": tname, "template": src,
+                    "script": "from checks import c19\n"
+                              f"res, changed, before, after, _ = c19.partc_case({asy!r}, {esc!r}, {tname!r}, {src!r})\n"
+                              "print('context before:', {k: c19.describe(v) for k, v in before.items()})\n"
+                              "print('context after :', {k: c19.describe(v) for k, v in after.items()})\n"
+                              "print('result:', res, ' changed:', changed)\n",
+                })
+            if pid in ("namespace/namespace(c)/set", "assign/after-untaken-if-flag/set") and tname == "dict-str":
+                p.sample({"async": asy, "program": pid, "type": tname, "template": src, "outcome": oc,
+                          "context_changed": changed}, cap=2)
+    return p
+
+
+def dispatch(arg):
+    kind, payload = arg
+    return {"method": method_shard, "filter": filter_shard, "partc": partc_shard}[kind](payload)
+
+
 def chunks(xs, n):
     return [xs[i:i + n] for i in range(0, len(xs), n)]
 
@@ -409,12 +546,17 @@ def run(ctx: core.Ctx):
             # autoescape on: attribute access does not depend on it; quick keeps three routes, thorough all
             for c in chunks(public, 6):
                 shards.append((asy, tname, c, 2, True, ESC_ROUTES_QUICK if ctx.quick else None))
-    ctx.pmap(method_shard, shards)
     fnames = sorted(make_env(False).filters)
-    ctx.pmap(filter_shard, [(asy, esc, c) for asy in (False, True) for esc in (False, True) for c in chunks(fnames, 2)])
+    allshards = [("method", sh) for sh in shards]
+    allshards += [("filter", (asy, esc, c)) for asy in (False, True) for esc in (False, True) for c in chunks(fnames, 2)]
+    nprog = len(partc_programs())
+    allshards += [("partc", (asy, esc, lo, lo + 40)) for asy in (False, True) for esc in (False, True)
+                  for lo in range(0, nprog, 40)]
+    ctx.pmap(dispatch, allshards)
     ctx.cov["bounds"] = {
         "types": TYPES, "names_per_type": nnames, "arg_values": [a for a, _ in ARG_VALUES], "max_args_public": 2 if ctx.quick else 3,
         "max_args_underscore": 1 if ctx.quick else 2, "routes": len(ROUTES), "filters": len(fnames),
         "filter_value_forms": VALUE_FORMS, "filter_dummies": DUMMIES, "modes": ["sync", "async"], "autoescape": [False, True], "filter_container_types": B_TYPES,
+        "assignment_programs": nprog, "assignment_container_types": C_TYPES,
         "method_routes_under_autoescape": list(ESC_ROUTES_QUICK) if ctx.quick else "all",
     }
